@@ -131,7 +131,11 @@ func init() {
 		},
 		"verifSymbolic": func(fr *frame, a []value) value { return fr.i.w.eng.Opt.Concrete == nil },
 		"verifSharedBegin": func(fr *frame, a []value) value {
-			fr.i.shared = newSharedMonitor(fr.i)
+			var roots []value
+			if len(a) > 0 {
+				roots, _ = a[0].([]value)
+			}
+			fr.i.shared = newSharedMonitor(fr.i, roots)
 			return nil
 		},
 		"verifSharedEnd": func(fr *frame, a []value) value { fr.i.shared = nil; return nil },
